@@ -92,6 +92,7 @@ func genFilter(g *rand.Rand, cfg *cluCfg, op *cluOp) {
 		for i := 0; i < k; i++ {
 			op.Includes = append(op.Includes, g.IntN(len(cfg.Nodes)))
 		}
+		op.UsePod = g.IntN(2) == 0 // the RPC layer sends the pod name along with the include list
 	case 1:
 		op.UsePod = true
 		if g.IntN(2) == 0 {
@@ -315,6 +316,11 @@ func (cluH) Generate(property string, seed uint64, tier string) *Case {
 			if property == "C12" && g.IntN(2) == 0 {
 				op = genCreate(g, &cfg, property)
 			}
+			if property == "C13" && op.Kind == "create" && g.IntN(8) == 0 {
+				// machines on which creating a container takes minutes (a large image to fetch):
+				// the deployment as a whole then runs longer than any of the timeouts it sets
+				op.Secs = 200 + g.IntN(250)
+			}
 			if (property == "C21" || property == "C01" || property == "C02" || property == "C03") && g.IntN(2) == 0 {
 				op = genCreate(g, &cfg, property)
 				op.Kind = "capacity"
@@ -341,7 +347,7 @@ func (cluH) Generate(property string, seed uint64, tier string) *Case {
 				}
 			}
 			if property == "C34" {
-				switch g.IntN(11) {
+				switch g.IntN(12) {
 				case 0:
 					op = cluOp{Kind: "rpc_pods"}
 				case 1:
@@ -357,6 +363,8 @@ func (cluH) Generate(property string, seed uint64, tier string) *Case {
 					op = genCreate(g, &cfg, property)
 				case 7:
 					op = cluOp{Kind: "rpc_list", App: []string{"app", "web", ""}[g.IntN(3)]}
+				case 8:
+					op = cluOp{Kind: "list_pod_nodes", Pod: g.IntN(len(cfg.Pods))}
 				case 6:
 					op = cluOp{Kind: "control", Ctl: []string{"stop", "start", "restart"}[g.IntN(3)], Slots: []int{g.IntN(64), g.IntN(64), g.IntN(64)}}
 				}
@@ -413,6 +421,9 @@ func (cluH) Execute(c *Case, res *Result) {
 	sim.KeepTrace = traceWanted
 	w := newCluWorld(sim, res, c.Property, cfg, c.Seed)
 	defer w.cleanup()
+	// when a task handed to the worker pool (or a new goroutine) starts is a scheduler step
+	verifrt.Start = func() { _ = sim.Seam(nil, "yield", "task-start", false) }
+	defer func() { verifrt.Start = nil }()
 	if c.Property == "C34" {
 		// the yield points inserted into calcium's goroutine bodies (scratch copy) become
 		// scheduler steps: goroutines of one operation can be stopped between a call that
